@@ -16,7 +16,7 @@ from lib.common import *
 ID = "C20"
 COQ_TARGETS = ["ConcP/LockEdgesP.vo"]
 META = {
-    "text": "Theorems (Properties/C20.v): for any ranking of mutexes respected by every goroutine no reachable state of the "
+    "text": "C20_atomic_calls_consistent (Conc/Atomic.v): a micro-step machine - any number of goroutines, each any sequence of AddConn/RemoveConn calls made of the individual updates (registry, routing table, read the count, publish the count read) between Lock and Unlock of the manager's mutex - under EVERY schedule ends with registry = routing table = published count; C20_early_unlock_refuted: releasing the mutex before the cluster is told loses that (the seeded lock-scope changes). Theorems (Properties/C20.v): for any ranking of mutexes respected by every goroutine no reachable state of the "
             "threads x mutexes machine is a deadlock, every run is bounded and can be completed (any number of threads and "
             "steps); the acyclicity checker is sound (accepted => ranking exists, so cycles and self edges are rejected); the "
             "lock graph extracted from the CURRENT source by harness/lockorder is acyclic (re-computed in Coq every run) and "
